@@ -353,6 +353,18 @@ Fixpoint load_of (q : nat) (p : list nat) (ws : list Z) : Z :=
 Definition loads_def (k : nat) (p : list nat) (ws : list Z) : list Z :=
   map (fun q => load_of q p ws) (seq 0 k).
 
+(* largest minus smallest element *)
+Definition list_max_Z (x : Z) (l : list Z) : Z := fold_right Z.max x l.
+Definition list_min_Z (x : Z) (l : list Z) : Z := fold_right Z.min x l.
+Definition spread (l : list Z) : Z :=
+  match l with [] => 0 | x :: r => list_max_Z x r - list_min_Z x r end.
+(* largest excess of a load over its target *)
+Definition max_excess (loads targets : list Z) : Z :=
+  match map (fun lt : Z * Z => fst lt - snd lt) (combine loads targets) with
+  | [] => 0
+  | d :: ds => list_max_Z d ds
+  end.
+
 (* lattice adjacency: positions differ by exactly one on exactly one axis *)
 Fixpoint list_eqb_nat (a b : list nat) : bool :=
   match a, b with
